@@ -473,6 +473,19 @@ class Extraction:
                     edits.append((t.start, t.end, "&[" + ", ".join("%du8" % b for b in bs) + "]"))
                     self.count("R-bytes", "%s:%d %s" % (S.rel, line_of(S.src, t.start), t.text))
 
+        # R-strmatch: a string-literal match pattern `"LIT" =>` becomes the binding pattern with an equality guard
+        # `__m if __m == "LIT" =>` (same semantics: string patterns compare by equality, arms are tried in order, the
+        # scrutinee is evaluated once).  Verus knows only "matched => equal" for literal patterns but both directions
+        # for `==` on &str, so the wildcard arm loses nothing.
+        if "R-strmatch" in self.rules:
+            for i in idxs:
+                t = toks[i]
+                if t.kind == "str" and t.text.startswith('"') and i + 2 <= it.hi and toks[i + 1].text == "=" \
+                        and toks[i + 2].text == ">" and toks[i + 1].end == toks[i + 2].start \
+                        and not any(a <= i <= b for a, b in removed_spans):
+                    edits.append((t.start, t.end, "__m if __m == %s" % t.text))
+                    self.count("R-strmatch", "%s:%d %s =>" % (S.rel, line_of(S.src, t.start), t.text))
+
         # token-sequence replacements (R-shim / R-async / R-mono are expressed this way)
         claimed = set()  # token indices already rewritten by an earlier rule (rules apply in file order)
         for rep in self.spec.get("replace", []):
